@@ -23,11 +23,11 @@ Definition mw (r : reader) (pm : pmap) (g : list (list Packet)) (c : list Packet
 
 (* ---- rewind ---- *)
 
-Definition gen_rewind (kd : rkind) (w : mworld) := DemuxGen.rewind mworld rkind unit as_seeker_m seek_m kd w.
+Definition rewind_reader_is_generated_subject (kd : rkind) (w : mworld) := DemuxGen.rewind mworld rkind unit as_seeker_m seek_m kd w.
 
 Theorem rewind_reader_is_generated r pm g c :
-  gen_rewind (r_kind r) (mw r pm g c) = Done (fst (rewind_reader r), None, mw (snd (rewind_reader r)) pm g c).
-Proof. unfold gen_rewind, DemuxGen.rewind, rewind_reader, mw. destruct (r_kind r); reflexivity. Qed.
+  rewind_reader_is_generated_subject (r_kind r) (mw r pm g c) = Done (fst (rewind_reader r), None, mw (snd (rewind_reader r)) pm g c).
+Proof. unfold rewind_reader_is_generated_subject, DemuxGen.rewind, rewind_reader, mw. destruct (r_kind r); reflexivity. Qed.
 
 (* ---- what read_full delivers ---- *)
 
@@ -71,7 +71,7 @@ Qed.
 
 (* ---- peek ---- *)
 
-Definition gen_peek (kd : rkind) (b : list Z) (w : mworld) :=
+Definition peek_is_generated_subject (kd : rkind) (b : list Z) (w : mworld) :=
   peek mworld rkind unit as_bufio_m (peek_m wr) (read_full_m wr) kd b w.
 
 Definition zeros : list Z := repeat 0 (Z.to_nat 193).
@@ -90,9 +90,9 @@ Definition peek_spec (r : reader) (pm : pmap) (g : list (list Packet)) (c : list
                match e with Some RInjected => Some (EExt wr) | Some REOF => Some e_eof | _ => None end, mw r1 pm g c)
   end.
 
-Lemma peek_is_generated r pm g c : rest_len r -> gen_peek (r_kind r) zeros (mw r pm g c) = peek_spec r pm g c.
+Lemma peek_is_generated r pm g c : rest_len r -> peek_is_generated_subject (r_kind r) zeros (mw r pm g c) = peek_spec r pm g c.
 Proof.
-  intros Hwf. unfold gen_peek, peek, peek_spec, mw.
+  intros Hwf. unfold peek_is_generated_subject, peek, peek_spec, mw.
   assert (Hz : Z.of_nat (List.length zeros) = 193) by (unfold zeros; rewrite repeat_length; lia).
   destruct (r_kind r) eqn:Ek; cbn [as_bufio_m is_some].
   - (* plain *)
@@ -131,26 +131,26 @@ Qed.
 
 (* ---- the search for the second sync byte ---- *)
 
-Definition gen_loop1 (lst : list Z) (idx : Z) (b : list Z) (ok : bool) (ps0 : Z) (kd : rkind) (rerr : option gerr)
+Definition loop1_is_find_sync_subject (lst : list Z) (idx : Z) (b : list Z) (ok : bool) (ps0 : Z) (kd : rkind) (rerr : option gerr)
   (w : mworld) :=
   autoDetectPacketSize_loop1 mworld rkind unit as_seeker_m seek_m unit (read_full_m wr) discard_m
     lst idx b (Some tt) None 193 ok ps0 kd rerr false w.
 
 Lemma loop1_is_find_sync lst : forall idx b ok ps0 kd rerr r pm g c,
-  gen_loop1 lst idx b ok ps0 kd rerr (mw r pm g c) =
+  loop1_is_find_sync_subject lst idx b ok ps0 kd rerr (mw r pm g c) =
   match find_sync lst idx with
   | Some ps => Done (ps, None, mw r pm g c)
   | None => Done (ps0, Some ENew, mw (snd (read_full r detect_window)) pm g c)
   end.
 Proof.
-  induction lst as [|x rest IH]; intros idx b ok ps0 kd rerr r pm g c; unfold gen_loop1;
+  induction lst as [|x rest IH]; intros idx b ok ps0 kd rerr r pm g c; unfold loop1_is_find_sync_subject;
     cbn [autoDetectPacketSize_loop1 find_sync].
   - reflexivity.
   - change syncByte with C_syncByte. rewrite Z.geb_leb.
     destruct ((x =? C_syncByte) && (C_MpegTsPacketSize <=? idx)); [reflexivity|]. apply IH.
 Qed.
 
-Definition gen_loop2 (lst : list Z) (idx : Z) (b : list Z) (br : option unit) (ok : bool) (ps0 : Z) (kd : rkind)
+Definition loop2_is_find_sync_subject (lst : list Z) (idx : Z) (b : list Z) (br : option unit) (ok : bool) (ps0 : Z) (kd : rkind)
   (rerr : option gerr) (w : mworld) :=
   autoDetectPacketSize_loop2 mworld rkind unit as_seeker_m seek_m unit (read_full_m wr)
     lst idx b br None 193 ok ps0 kd rerr true w.
@@ -165,13 +165,13 @@ Definition resync (kd : rkind) (ps : Z) (r1 : reader) (pm : pmap) (g : list (lis
   end.
 
 Lemma loop2_is_find_sync lst : forall idx b br ok ps0 kd rerr r1 pm g c,
-  gen_loop2 lst idx b br ok ps0 kd rerr (mw r1 pm g c) =
+  loop2_is_find_sync_subject lst idx b br ok ps0 kd rerr (mw r1 pm g c) =
   match find_sync lst idx with
   | Some ps => resync kd ps r1 pm g c
   | None => Done (ps0, Some ENew, mw r1 pm g c)
   end.
 Proof.
-  induction lst as [|x rest IH]; intros idx b br ok ps0 kd rerr r1 pm g c; unfold gen_loop2;
+  induction lst as [|x rest IH]; intros idx b br ok ps0 kd rerr r1 pm g c; unfold loop2_is_find_sync_subject;
     cbn [autoDetectPacketSize_loop2 find_sync].
   - reflexivity.
   - change syncByte with C_syncByte. rewrite Z.geb_leb.
@@ -197,7 +197,7 @@ Qed.
 
 (* ---- autoDetectPacketSize ---- *)
 
-Definition gen_autoDetect (kd : rkind) (w : mworld) :=
+Definition auto_detect_is_generated_subject (kd : rkind) (w : mworld) :=
   autoDetectPacketSize mworld rkind unit as_seeker_m seek_m unit as_bufio_m (peek_m wr) (read_full_m wr) discard_m kd w.
 
 Definition ad_rel (pm : pmap) (g : list (list Packet)) (c : list Packet)
@@ -218,7 +218,7 @@ Ltac non_bufio_found kd :=
     destruct (negb (nth 0 (pad_to bs detect_window) 0 =? syncByte)); [cbn [ad_rel fst snd res_rel_exact]; repeat split|];
     change (autoDetectPacketSize_loop2 mworld rkind unit as_seeker_m seek_m unit (read_full_m wr)
               (pad_to bs detect_window) 0 (pad_to bs detect_window) None None 193 false 0 kd None true (mw r1 pm g c))
-      with (gen_loop2 (pad_to bs detect_window) 0 (pad_to bs detect_window) None false 0 kd None (mw r1 pm g c));
+      with (loop2_is_find_sync_subject (pad_to bs detect_window) 0 (pad_to bs detect_window) None false 0 kd None (mw r1 pm g c));
     rewrite loop2_is_find_sync;
     destruct (find_sync (pad_to bs detect_window) 0) as [?ps|]; [|cbn [ad_rel fst snd res_rel_exact]; repeat split];
     unfold resync;
@@ -235,7 +235,7 @@ Ltac bufio_found Hrf :=
      change 193 with detect_window; rewrite Hrf; cbn [snd ad_rel fst res_rel_exact]; repeat split|];
     change (autoDetectPacketSize_loop1 mworld rkind unit as_seeker_m seek_m unit (read_full_m wr) discard_m
               (pad_to bs detect_window) 0 (pad_to bs detect_window) (Some tt) None 193 true 0 Bufio None false (mw r pm g c))
-      with (gen_loop1 (pad_to bs detect_window) 0 (pad_to bs detect_window) true 0 Bufio None (mw r pm g c));
+      with (loop1_is_find_sync_subject (pad_to bs detect_window) 0 (pad_to bs detect_window) true 0 Bufio None (mw r pm g c));
     rewrite loop1_is_find_sync; rewrite Hrf;
     destruct (find_sync (pad_to bs detect_window) 0) as [?ps|]; cbn [snd ad_rel fst res_rel_exact]; repeat split
   end.
@@ -252,12 +252,12 @@ Ltac non_bufio kd :=
   end.
 
 Theorem auto_detect_is_generated r pm g c : rest_len r ->
-  ad_rel pm g c (gen_autoDetect (r_kind r) (mw r pm g c)) (auto_detect r).
+  ad_rel pm g c (auto_detect_is_generated_subject (r_kind r) (mw r pm g c)) (auto_detect r).
 Proof.
-  intros Hwf. unfold gen_autoDetect, autoDetectPacketSize.
+  intros Hwf. unfold auto_detect_is_generated_subject, autoDetectPacketSize.
   change (0 <=? 193) with true. cbv iota zeta.
   change (peek mworld rkind unit as_bufio_m (peek_m wr) (read_full_m wr) (r_kind r) (repeat 0 (Z.to_nat 193)) (mw r pm g c))
-    with (gen_peek (r_kind r) zeros (mw r pm g c)).
+    with (peek_is_generated_subject (r_kind r) zeros (mw r pm g c)).
   rewrite (peek_is_generated r pm g c Hwf). unfold peek_spec, auto_detect.
   destruct (read_full r detect_window) as [[bs e] r1] eqn:Hrf.
   pose proof (read_full_len r 193 bs e r1 ltac:(lia) Hrf) as Hle.
@@ -277,7 +277,7 @@ Qed.
 
 (* ---- newPacketBuffer ---- *)
 
-Definition gen_newPacketBuffer (kd : rkind) (size : Z) (sk : option go_skipper) (w : mworld) :=
+Definition new_packet_buffer_is_generated_subject (kd : rkind) (size : Z) (sk : option go_skipper) (w : mworld) :=
   newPacketBuffer mworld rkind unit as_seeker_m seek_m unit as_bufio_m (peek_m wr) (read_full_m wr) discard_m kd size sk w.
 
 Definition npb_rel (kd : rkind) (sk : option go_skipper) (pm : pmap) (g : list (list Packet)) (c : list Packet)
@@ -292,14 +292,14 @@ Definition npb_rel (kd : rkind) (sk : option go_skipper) (pm : pmap) (g : list (
   end.
 
 Theorem new_packet_buffer_is_generated r opt sk pm g c : rest_len r ->
-  npb_rel (r_kind r) sk pm g c (gen_newPacketBuffer (r_kind r) opt sk (mw r pm g c)) (new_packet_buffer r opt).
+  npb_rel (r_kind r) sk pm g c (new_packet_buffer_is_generated_subject (r_kind r) opt sk (mw r pm g c)) (new_packet_buffer r opt).
 Proof.
-  intros Hwf. unfold gen_newPacketBuffer, newPacketBuffer, new_packet_buffer. cbv zeta.
+  intros Hwf. unfold new_packet_buffer_is_generated_subject, newPacketBuffer, new_packet_buffer. cbv zeta.
   destruct (opt =? 0).
   - change (autoDetectPacketSize mworld rkind unit as_seeker_m seek_m unit as_bufio_m (peek_m wr) (read_full_m wr) discard_m
-              (r_kind r) (mw r pm g c)) with (gen_autoDetect (r_kind r) (mw r pm g c)).
+              (r_kind r) (mw r pm g c)) with (auto_detect_is_generated_subject (r_kind r) (mw r pm g c)).
     pose proof (auto_detect_is_generated r pm g c Hwf) as Had. unfold ad_rel in Had.
-    destruct (gen_autoDetect (r_kind r) (mw r pm g c)) as [[[size err] w']| |]; [|contradiction|contradiction].
+    destruct (auto_detect_is_generated_subject (r_kind r) (mw r pm g c)) as [[[size err] w']| |]; [|contradiction|contradiction].
     destruct (auto_detect r) as [rs r']. cbn [fst snd] in Had. destruct Had as [-> Hr]. cbn [obind].
     destruct err as [e|]; destruct rs as [ps|cd|]; cbn [res_rel_exact] in Hr; try contradiction; cbn [is_some].
     + destruct Hr as [Hc Hx]. cbn [oerr_eqb]. change (EVar "ErrNoMorePackets"%string) with e_nomore. rewrite Hx.
